@@ -85,9 +85,9 @@ def snap(obj, kind):
 
 
 def clone(obj, kind):
-    if kind in ('ss', 'vars'):
+    if kind in ('bqm', 'ss', 'vars'):
         return pickle.loads(pickle.dumps(obj))
-    return copy.deepcopy(obj)      # (pickling a cyBQM re-orders its variables, see pickle_reorders_variables)
+    return copy.deepcopy(obj)      # QM / CQM do not pickle
 
 
 # ---------------------------------------------------------------------------- construction
@@ -287,8 +287,8 @@ VIEWS = {0: lambda o: o.spin, 1: lambda o: o.binary, 2: lambda o: o.objective}
 
 
 class Handle:
-    def __init__(self, obj, kind, parent=None, w=None):
-        self.obj, self.kind, self.parent, self.w = obj, kind, parent, w
+    def __init__(self, obj, kind, parent=None, w=None, via=None):
+        self.obj, self.kind, self.parent, self.w, self.via = obj, kind, parent, w, via
 
 
 def run_case(c):
@@ -376,7 +376,7 @@ def run_case(c):
                     fail = fail or f"{name} returned the receiver itself"
                     feats["returned_self"] = True
                     continue
-                handles.append(Handle(nobj, nkind))
+                handles.append(Handle(nobj, nkind, via=name))
                 ncopies += 1
                 if name == "pickle" and nkind == 'bqm' and list(nobj.variables) != list(h.obj.variables):
                     feats["pickle_reorders_variables"] = True
@@ -486,11 +486,19 @@ def run_case(c):
                     after = [sid(snap(x.obj, x.kind)) for x in handles]
                     changed = [j for j in range(len(handles)) if before[j] != after[j] and j != i]
                     h.obj.info['nested']['a'].pop()
-                    if changed:
-                        feats["info_nested_shared"] = True
+                    # SampleSet.copy() is documented as a shallow copy (it copies the record but only the top level
+                    # of info), so sharing between a sample set and its copy() is the documented alias; any other
+                    # call that shares nested info values is reported
+                    vias = sorted({handles[max(i, j)].via for j in changed} - {"copy()"})
+                    if vias:
                         feats.pop("edit", None)
                         feats.pop("op", None)
-                        fail = fail or "an edit of a nested info value of one sample set is visible through another"
+                        if all(v in ("relabel_variables(inplace=False)", "change_vartype(inplace=False)", "lowest") for v in vias):
+                            feats["info_shared_via_copy"] = True
+                        else:
+                            feats["info_nested_shared"] = True
+                        feats["via"] = vias[0]
+                        fail = fail or ("an edit of a nested info value of one sample set is visible through another (created by %s)" % vias[0])
     except ProbeMismatch as e:
         fail = fail or str(e)
         feats["probe_mismatch"] = True
